@@ -20,9 +20,11 @@ MANIFEST = {
             "apply() must merge the callee table through "
             "SymbolTable.merge (renaming via next_available_name, see C16) "
             "before it moves statements.",
-    "note": "By-reference binding of a(i) when the callee changes i, and "
-            "the evaluation order of expression arguments are run-time "
-            "behaviour and NOT decided.",
+    "note": "R2 shows that the transformation never looks at what the "
+            "callee writes, so by-reference binding of a(i) when the callee "
+            "changes i and expression arguments whose operands the callee "
+            "changes are inlined wrongly (known finding C07-a, two "
+            "confirmed inputs). Other run-time behaviour is NOT decided.",
     "technique": "must-pass-through over a reviewed obligation table + "
                  "statement-order rule in apply()",
 }
@@ -100,5 +102,25 @@ def check(idx, run):
               "InlineTrans.apply", "validate first",
               "apply() does not validate before merging symbols",
               loc(mod, app))
-    run.assumptions = ["by-reference binding and evaluation order are not "
-                       "decided"]
+    # R2: an actual argument is bound when the call is made: the element
+    # designated by a(i) and the value of an expression argument are fixed
+    # at that point.  Substituting the actual argument text for the dummy is
+    # only equivalent when the callee does not modify anything the actual
+    # argument's subscripts / operands read.
+    val = cls.methods["validate"]
+    vtxt = " ".join(ast.unparse(val).split())
+    facts = ("VariablesAccessInfo", "reference_accesses", "is_written",
+             "DependencyTools", "AccessType", "is_read_only")
+    whole = " ".join(ast.unparse(cls.node).split())
+    run.check(
+        "C07.R2", any(f in whole for f in facts), "InlineTrans.validate",
+        "subscripts and operands of the actual arguments are not modified "
+        "by the callee",
+        "InlineTrans never examines what the called routine writes: "
+        "`call sub(a(i), i)` with `sub(x, k): k = k + 1; x = 5.0` is inlined "
+        "as `i = i + 1; a(i) = 5.0` (element a(2) instead of a(1)), and "
+        "`call sub(a(1) + 1.0, a, n)` with `sub: y(1) = 0.0; y(2) = x` as "
+        "`a(1) = 0.0; a(2) = a(1) + 1.0` (the expression is re-evaluated "
+        "after a(1) changed)", loc(mod, val))
+    run.assumptions = ["beyond R2 the run-time behaviour of the inlined "
+                       "code is not decided"]
